@@ -14,6 +14,7 @@ package main
 import (
 	"fmt"
 	"go/constant"
+	"go/token"
 	"go/types"
 	"sort"
 	"strings"
@@ -60,6 +61,18 @@ type c19Anchors struct {
 	bpDesc, bpData             int // blobPusher parameter indexes
 	verKey, k10, k11           string
 }
+
+// inline: unexported helpers that are not role anchors are executed in place
+// (so extracting a helper from a packer does not change what the rules see).
+func (a *c19Anchors) inline(g *ssa.Function) bool {
+	switch g {
+	case a.validator, a.annot, a.manifestPusher, a.blobPusher, a.configPusher, a.v10, a.v11, a.rc2, a.artifact:
+		return false
+	}
+	return !token.IsExported(g.Name())
+}
+
+func (a *c19Anchors) paths(fn *ssa.Function) *sxResult { return sxPathsInline(fn, "c19", a.inline) }
 
 func c19ReachesPush(f *ssa.Function) bool {
 	return f != nil && inModule(f) && reachesCall(f, 3, func(n string, _ ssa.CallInstruction) bool { return n == c19NPush })
@@ -186,12 +199,22 @@ func c19Resolve(c *Ctx) *c19Anchors {
 	}
 	// helpers by role among the static callees of the packers
 	callees := map[*ssa.Function]bool{}
-	for _, P := range []*ssa.Function{a.v10, a.v11, a.rc2, a.artifact} {
-		for _, call := range Calls(P, func(string) bool { return true }) {
-			if g := StaticCallee(call); g != nil && inModule(g) && len(g.Blocks) > 0 {
+	var collect func(f *ssa.Function, depth int)
+	collect = func(f *ssa.Function, depth int) {
+		for _, call := range Calls(f, func(string) bool { return true }) {
+			if g := StaticCallee(call); g != nil && inModule(g) && len(g.Blocks) > 0 && !callees[g] {
 				callees[g] = true
+				if depth < sxInlineDepth {
+					collect(g, depth+1)
+				}
 			}
 		}
+	}
+	for _, P := range []*ssa.Function{a.v10, a.v11, a.rc2, a.artifact} {
+		collect(P, 0)
+	}
+	for _, P := range []*ssa.Function{a.v10, a.v11, a.rc2, a.artifact} {
+		delete(callees, P)
 	}
 	var sorted []*ssa.Function
 	for g := range callees {
@@ -277,14 +300,18 @@ func sxEqKeyStr(ka, kb string) string {
 // c19Site names a call site without positions: callee plus its ordinal among
 // the calls of the same callee in block order.
 func c19Site(fn *ssa.Function, call ssa.CallInstruction) string {
+	own := call.Parent()
 	n, k := CalleeName(call), 0
-	for _, x := range Calls(fn, func(s string) bool { return s == n }) {
+	for _, x := range Calls(own, func(s string) bool { return s == n }) {
 		k++
 		if x == call {
 			break
 		}
 	}
 	n = strings.TrimPrefix(n, "~.")
+	if own != fn {
+		return fmt.Sprintf("%s/%s#%d", own.Name(), n, k) // call inside an inlined helper
+	}
 	return fmt.Sprintf("%s#%d", n, k)
 }
 
@@ -457,7 +484,7 @@ func c19R1(c *Ctx, a *c19Anchors) {
 			{label: "artifactType", term: art},
 			{label: "config.mediaType", term: cfgMedia, whole: []sxVal{cfgDeref}},
 		}
-		res := sxPaths(P)
+		res := a.paths(P)
 		if res.Err != "" {
 			c.Undecided(R1, pn+"|paths", P.Pos(), res.Err)
 			continue
@@ -537,7 +564,7 @@ func c19R1(c *Ctx, a *c19Anchors) {
 	agg.flush()
 	// PackManifest dispatch: unknown versions are rejected without a call
 	P := a.packManifest
-	res := sxPaths(P)
+	res := a.paths(P)
 	okDispatch, detail := true, "only the 1.0 and 1.1 packers are called, under their version constants; every other path returns a non-nil error without pushing"
 	for _, p := range res.Paths {
 		called := false
@@ -616,7 +643,7 @@ func c19R2(c *Ctx, a *c19Anchors) {
 			continue
 		}
 		want, _ := sxFieldByName(opts, optsT, "ManifestAnnotations")
-		res := sxPaths(P)
+		res := a.paths(P)
 		if res.Err != "" {
 			c.Undecided(R2, pn+"|paths", P.Pos(), res.Err)
 			continue
@@ -677,7 +704,7 @@ func c19R2(c *Ctx, a *c19Anchors) {
 	pm, pk := sxParam{E.Params[mapIdx]}, sxParam{E.Params[keyIdx]}
 	lookup := sxOp{"lookup,ok", []sxVal{pm, pk}}
 	lval, lok := sxOp{"extract#0", []sxVal{lookup}}, sxOp{"extract#1", []sxVal{lookup}}
-	res := sxPaths(E)
+	res := a.paths(E)
 	if res.Err != "" {
 		c.Undecided(R2, en+"|paths", E.Pos(), res.Err)
 		return
@@ -794,6 +821,11 @@ func c19PairOK(d, b sxVal, allowed map[string]bool) (bool, string) {
 	return false, "cannot relate the descriptor " + sxDescribe(d) + " to the bytes pushed"
 }
 
+func c19FirstArgIs(v sxVal, want sxVal) bool {
+	cl, ok := v.(sxCall)
+	return ok && len(cl.rec.Args) > 0 && sxSame(cl.rec.Args[0], want)
+}
+
 func c19R3(c *Ctx, a *c19Anchors) {
 	const R3 = "C19.R3.descriptor-matches-bytes"
 	c.Expect(R3, 14)
@@ -801,7 +833,8 @@ func c19R3(c *Ctx, a *c19Anchors) {
 	// (a) manifest pusher
 	MP := a.manifestPusher
 	mn := FnName(MP)
-	res := sxPaths(MP)
+	pusherIdx := c19ParamIndexByType(MP, func(t types.Type) bool { return c19IsNamed(t, "/content", "Pusher") })
+	res := a.paths(MP)
 	if res.Err != "" {
 		c.Undecided(R3, mn+"|paths", MP.Pos(), res.Err)
 	}
@@ -838,9 +871,9 @@ func c19R3(c *Ctx, a *c19Anchors) {
 				agg.fail(key, MP, in, p, "the pushed bytes are not json.Marshal(manifest) (got "+sxDescribe(b)+")")
 			case !p.ErrNil(r.NFacts, mar.rec):
 				agg.fail(key, MP, in, p, "the manifest is pushed although json.Marshal may have failed")
-			case !sxSame(sxBase(d).(sxCall).rec.Args[0], sxParam{MP.Params[a.mpMedia]}):
+			case !c19FirstArgIs(sxBase(d), sxParam{MP.Params[a.mpMedia]}):
 				agg.fail(key, MP, in, p, "the descriptor's media type is not the mediaType parameter")
-			case !sxSame(r.Recv, sxParam{MP.Params[c19ParamIndexByType(MP, func(t types.Type) bool { return c19IsNamed(t, "/content", "Pusher") })]}):
+			case pusherIdx < 0 || !sxSame(r.Recv, sxParam{MP.Params[pusherIdx]}):
 				agg.fail(key, MP, in, p, "Push is not invoked on the pusher parameter")
 			default:
 				agg.ok(key, MP, in, why+"; B = json.Marshal(manifest) with nil error")
@@ -867,7 +900,7 @@ func c19R3(c *Ctx, a *c19Anchors) {
 	// (b) blob pusher: pushes its own (desc, data) parameters
 	BP := a.blobPusher
 	bn := FnName(BP)
-	res = sxPaths(BP)
+	res = a.paths(BP)
 	if res.Err != "" {
 		c.Undecided(R3, bn+"|paths", BP.Pos(), res.Err)
 	}
@@ -894,7 +927,7 @@ func c19R3(c *Ctx, a *c19Anchors) {
 			continue
 		}
 		fn := FnName(F)
-		res := sxPaths(F)
+		res := a.paths(F)
 		if res.Err != "" {
 			c.Undecided(R3, fn+"|paths", F.Pos(), res.Err)
 			continue
@@ -922,7 +955,7 @@ func c19R3(c *Ctx, a *c19Anchors) {
 	// (d) generated-config pusher returns the descriptor it pushed
 	CP := a.configPusher
 	cn := FnName(CP)
-	res = sxPaths(CP)
+	res = a.paths(CP)
 	if res.Err != "" {
 		c.Undecided(R3, cn+"|paths", CP.Pos(), res.Err)
 	}
@@ -998,7 +1031,7 @@ func c19R4(c *Ctx, a *c19Anchors) {
 	for _, P := range []*ssa.Function{a.v10, a.v11, a.rc2} {
 		pn := FnName(P)
 		opts, optsT := c19Opts(P)
-		res := sxPaths(P)
+		res := a.paths(P)
 		if res.Err != "" || opts == nil {
 			c.Undecided(R4, pn+"|paths", P.Pos(), res.Err)
 			continue
@@ -1083,7 +1116,7 @@ func c19R4(c *Ctx, a *c19Anchors) {
 	BP := a.blobPusher
 	bn := FnName(BP)
 	agg = newC19Agg(c, R4)
-	for _, p := range sxPaths(BP).Paths {
+	for _, p := range a.paths(BP).Paths {
 		if p.Ret == nil || !sxSame(p.Ret[len(p.Ret)-1], sxNil) {
 			continue
 		}
@@ -1125,7 +1158,7 @@ func c19R5(c *Ctx, a *c19Anchors) {
 		pn := FnName(P)
 		opts, optsT := c19Opts(P)
 		art := c19StringParam(P)
-		res := sxPaths(P)
+		res := a.paths(P)
 		if res.Err != "" || opts == nil || art == nil {
 			c.Undecided(R5, pn+"|paths", P.Pos(), res.Err)
 			continue
